@@ -140,106 +140,270 @@ func c14ReaderLib(c *ctx, recv string) (string, error) {
 		}
 	}
 	var found []string
-	ast.Inspect(fd.Body, func(n ast.Node) bool {
-		call, ok := n.(*ast.CallExpr)
-		if !ok {
-			return true
-		}
-		sel, ok := call.Fun.(*ast.SelectorExpr)
-		if !ok || sel.Sel.Name != "NewReader" {
-			return true
-		}
-		pkg, ok := sel.X.(*ast.Ident)
-		if !ok {
-			return true
-		}
-		path := ""
-		for _, im := range file.Imports {
-			p, _ := strconv.Unquote(im.Path.Value)
-			name := p[strings.LastIndex(p, "/")+1:]
-			if im.Name != nil {
-				name = im.Name.Name
+	var scan func(body *ast.BlockStmt, depth int)
+	scan = func(body *ast.BlockStmt, depth int) {
+		ast.Inspect(body, func(n ast.Node) bool {
+			call, ok := n.(*ast.CallExpr)
+			if !ok {
+				return true
 			}
-			if name == pkg.Name {
-				path = p
+			if id, ok := call.Fun.(*ast.Ident); ok && depth == 0 && !ast.IsExported(id.Name) {
+				// an unexported helper of the package (e.g. a pooled constructor): one level deep
+				if h, err := c.funcDecl("internal/compress", "", id.Name); err == nil && h.Body != nil {
+					scan(h.Body, 1)
+				}
+				return true
 			}
-		}
-		found = append(found, path)
-		return true
-	})
+			sel, ok := call.Fun.(*ast.SelectorExpr)
+			if !ok || sel.Sel.Name != "NewReader" {
+				return true
+			}
+			pkg, ok := sel.X.(*ast.Ident)
+			if !ok {
+				return true
+			}
+			path := ""
+			for _, im := range file.Imports {
+				p, _ := strconv.Unquote(im.Path.Value)
+				name := p[strings.LastIndex(p, "/")+1:]
+				if im.Name != nil {
+					name = im.Name.Name
+				}
+				if name == pkg.Name {
+					path = p
+				}
+			}
+			found = append(found, path)
+			return true
+		})
+	}
+	scan(fd.Body, 0)
 	if len(found) != 1 || found[0] == "" {
 		return "", fmt.Errorf("%s.Read: expected exactly one pkg.NewReader call, found %v", recv, found)
 	}
 	return found[0], nil
 }
 
-// ---- request side ----------------------------------------------------------------------
+// ---- a function with its single-assignment locals -----------------------------------------
 
-func c14AskConds(c *ctx, dir, recv, fn string) ([]string, error) {
-	fd, err := c.funcDecl(dir, recv, fn)
+// errAbstain: the construct the fact is about could not be LOCATED in the shape family the
+// extractor knows (if/else-if chain or tagless switch, helpers one level deep, hoisted locals,
+// nested ifs). The fact is then reported as absent (`none`) - no claim, no alarm: every part of
+// these shapes is also pinned behaviourally by the C14 lanes. A construct that IS located but
+// contains something unclassifiable is reported with an "other:…" marker, which no bridging
+// theorem accepts.
+type errAbstain struct{ why string }
+
+func (e errAbstain) Error() string { return e.why }
+
+type c14Fn struct {
+	c      *ctx
+	dir    string
+	fd     *ast.FuncDecl
+	locals map[string]ast.Expr // x := e / var x = e, defined once and never reassigned
+}
+
+func c14NewFn(c *ctx, dir, recv, name string) (*c14Fn, error) {
+	fd, err := c.funcDecl(dir, recv, name)
 	if err != nil {
-		return nil, err
+		return nil, errAbstain{err.Error()}
 	}
-	var hits []*ast.IfStmt
+	f := &c14Fn{c: c, dir: dir, fd: fd, locals: map[string]ast.Expr{}}
+	count := map[string]int{}
 	ast.Inspect(fd.Body, func(n ast.Node) bool {
-		is, ok := n.(*ast.IfStmt)
-		if !ok {
-			return true
-		}
-		for _, st := range is.Body.List {
-			as, ok := st.(*ast.AssignStmt)
-			if !ok || len(as.Lhs) != 1 || len(as.Rhs) != 1 {
-				continue
+		switch s := n.(type) {
+		case *ast.AssignStmt:
+			for i, l := range s.Lhs {
+				id, ok := l.(*ast.Ident)
+				if !ok {
+					continue
+				}
+				if s.Tok == token.DEFINE && len(s.Lhs) == len(s.Rhs) {
+					count[id.Name]++
+					f.locals[id.Name] = s.Rhs[i]
+				} else {
+					count[id.Name] += 2 // reassigned or multi-value: not a pure alias
+				}
 			}
-			name := c14LastSel(as.Lhs[0])
-			if id, ok := as.Lhs[0].(*ast.Ident); ok {
-				name = id.Name
+		case *ast.ValueSpec:
+			for i, id := range s.Names {
+				if len(s.Values) == len(s.Names) {
+					count[id.Name]++
+					f.locals[id.Name] = s.Values[i]
+				} else {
+					count[id.Name] += 2
+				}
 			}
-			if name == "requestedGzip" && c14Print(c, as.Rhs[0]) == "true" {
-				hits = append(hits, is)
+		case *ast.IncDecStmt:
+			if id, ok := s.X.(*ast.Ident); ok {
+				count[id.Name] += 2
 			}
 		}
 		return true
 	})
-	if len(hits) != 1 {
-		return nil, fmt.Errorf("%s.%s: %d `if … { requestedGzip = true }` statements", recv, fn, len(hits))
+	for k, n := range count {
+		if n != 1 {
+			delete(f.locals, k)
+		}
+	}
+	return f, nil
+}
+
+// resolve follows a local alias to the expression it was defined as (and strips parentheses).
+func (f *c14Fn) resolve(e ast.Expr) ast.Expr {
+	for i := 0; i < 4; i++ {
+		switch x := e.(type) {
+		case *ast.ParenExpr:
+			e = x.X
+			continue
+		case *ast.Ident:
+			if d, ok := f.locals[x.Name]; ok {
+				e = d
+				continue
+			}
+		}
+		break
+	}
+	return e
+}
+
+func (f *c14Fn) print(n ast.Node) string { return c14Print(f.c, n) }
+
+func (f *c14Fn) headerGet(e ast.Expr) (string, bool) { return c14HeaderGet(f.resolve(e)) }
+
+func (f *c14Fn) str(e ast.Expr) (string, bool) { return c14Str(f.resolve(e)) }
+
+// conjuncts flattens && (through parentheses and boolean locals).
+func (f *c14Fn) conjuncts(e ast.Expr) []ast.Expr {
+	r := f.resolve(e)
+	if b, ok := r.(*ast.BinaryExpr); ok && b.Op == token.LAND {
+		return append(f.conjuncts(b.X), f.conjuncts(b.Y)...)
+	}
+	return []ast.Expr{e}
+}
+
+// isHeadTest: `X.Method == "HEAD"` / `== http.MethodHead` / a field or local called isHead.
+func (f *c14Fn) isHeadTest(e ast.Expr) bool {
+	if c14LastSel(e) == "isHead" {
+		return true
+	}
+	if id, ok := e.(*ast.Ident); ok && id.Name == "isHead" {
+		if _, aliased := f.locals[id.Name]; !aliased {
+			return true
+		}
+	}
+	r := f.resolve(e)
+	if c14LastSel(r) == "isHead" {
+		return true
+	}
+	if b, ok := r.(*ast.BinaryExpr); ok && b.Op == token.EQL {
+		for _, p := range [][2]ast.Expr{{b.X, b.Y}, {b.Y, b.X}} {
+			if c14LastSel(f.resolve(p[0])) == "Method" {
+				if s, ok := f.str(p[1]); ok && s == "HEAD" {
+					return true
+				}
+				if f.print(p[1]) == "http.MethodHead" {
+					return true
+				}
+			}
+		}
+	}
+	return false
+}
+
+// notHeadTest: `!isHead…` or `X.Method != "HEAD"`.
+func (f *c14Fn) notHeadTest(e ast.Expr) bool {
+	r := f.resolve(e)
+	if u, ok := r.(*ast.UnaryExpr); ok && u.Op == token.NOT {
+		return f.isHeadTest(u.X)
+	}
+	if b, ok := r.(*ast.BinaryExpr); ok && b.Op == token.NEQ {
+		eq := *b
+		eq.Op = token.EQL
+		return f.isHeadTest(&eq)
+	}
+	return false
+}
+
+// ---- request side ----------------------------------------------------------------------
+
+// c14AskConds finds where `requestedGzip` becomes true: `if A && B … { requestedGzip = true }`
+// (possibly inside further ifs: their conditions are conjuncts too) or `requestedGzip = A && B …`.
+func c14AskConds(c *ctx, dir, recv, fn string) ([]string, error) {
+	f, err := c14NewFn(c, dir, recv, fn)
+	if err != nil {
+		return nil, err
+	}
+	var found [][]ast.Expr
+	var walk func(l []ast.Stmt, encl []ast.Expr)
+	isFlag := func(e ast.Expr) bool {
+		if id, ok := e.(*ast.Ident); ok {
+			return id.Name == "requestedGzip"
+		}
+		return c14LastSel(e) == "requestedGzip"
+	}
+	walk = func(l []ast.Stmt, encl []ast.Expr) {
+		for _, st := range l {
+			switch s := st.(type) {
+			case *ast.AssignStmt:
+				for i, lhs := range s.Lhs {
+					if !isFlag(lhs) || len(s.Lhs) != len(s.Rhs) {
+						continue
+					}
+					switch f.print(s.Rhs[i]) {
+					case "true":
+						found = append(found, append([]ast.Expr(nil), encl...))
+					case "false":
+					default:
+						found = append(found, append(append([]ast.Expr(nil), encl...), s.Rhs[i]))
+					}
+				}
+			case *ast.IfStmt:
+				walk(s.Body.List, append(append([]ast.Expr(nil), encl...), s.Cond))
+				// an else branch negates the condition: not a shape we read
+			case *ast.BlockStmt:
+				walk(s.List, encl)
+			}
+		}
+	}
+	walk(f.fd.Body.List, nil)
+	if len(found) != 1 {
+		return nil, errAbstain{fmt.Sprintf("%s.%s: %d places set requestedGzip", recv, fn, len(found))}
 	}
 	var out []string
-	for _, e := range c14Conjuncts(hits[0].Cond) {
-		k, err := c14AskConjunct(c, e)
-		if err != nil {
-			return nil, fmt.Errorf("%s.%s: %v", recv, fn, err)
+	for _, cond := range found[0] {
+		for _, e := range f.conjuncts(cond) {
+			out = append(out, f.askConjunct(e))
 		}
-		out = append(out, k)
 	}
 	return out, nil
 }
 
-func c14AskConjunct(c *ctx, e ast.Expr) (string, error) {
-	if u, ok := e.(*ast.UnaryExpr); ok && u.Op == token.NOT {
-		switch strings.ToLower(c14LastSel(u.X)) {
-		case "disablecompression":
-			return "notDisabled", nil
-		case "ishead":
-			return "notHead", nil
+func (f *c14Fn) askConjunct(e ast.Expr) string {
+	r := f.resolve(e)
+	if u, ok := r.(*ast.UnaryExpr); ok && u.Op == token.NOT {
+		x := f.resolve(u.X)
+		name := c14LastSel(x)
+		if id, ok := x.(*ast.Ident); ok {
+			name = id.Name
+		}
+		if strings.EqualFold(name, "disablecompression") {
+			return "notDisabled"
 		}
 	}
-	if b, ok := e.(*ast.BinaryExpr); ok {
-		if k, ok := c14HeaderGet(b.X); ok && b.Op == token.EQL {
-			if s, ok := c14Str(b.Y); ok && s == "" {
-				return "noHeader:" + k, nil
-			}
-		}
-		if c14LastSel(b.X) == "Method" && b.Op == token.NEQ {
-			if s, ok := c14Str(b.Y); ok && s == "HEAD" {
-				return "notHead", nil
-			}
-			if c14Print(c, b.Y) == "http.MethodHead" {
-				return "notHead", nil
+	if f.notHeadTest(e) {
+		return "notHead"
+	}
+	if b, ok := r.(*ast.BinaryExpr); ok && b.Op == token.EQL {
+		for _, p := range [][2]ast.Expr{{b.X, b.Y}, {b.Y, b.X}} {
+			if k, ok := f.headerGet(p[0]); ok {
+				if s, ok := f.str(p[1]); ok && s == "" {
+					return "noHeader:" + k
+				}
 			}
 		}
 	}
-	return "", fmt.Errorf("unclassified conjunct `%s` in the ask-for-gzip condition", c14Print(c, e))
+	return "other:" + f.print(e)
 }
 
 // ---- response side ---------------------------------------------------------------------
@@ -257,204 +421,337 @@ type c14Site struct {
 	after       string
 }
 
-// c14Effect classifies one statement of a decoding block.
-func c14Effect(c *ctx, st ast.Stmt, readerVar string) (string, error) {
+func (f *c14Fn) isNewCompressReader(e ast.Expr) (*ast.CallExpr, bool) {
+	call, ok := f.resolve(e).(*ast.CallExpr)
+	if !ok || len(call.Args) != 2 {
+		return nil, false
+	}
+	fun := f.print(call.Fun)
+	return call, fun == "compress.NewCompressReader" || fun == "NewCompressReader"
+}
+
+// source names where a body comes from, by role: "reader" = the result of
+// compress.NewCompressReader, "gzip" = a gzip reader (transport.go gzipReader /
+// compress.NewGzipReader), "field:responseBody" = the HTTP/3 stream's body field, "raw" =
+// anything else (the framing-level body: a local, bodyEOFSignal, transportResponseBody, …).
+func (f *c14Fn) source(e ast.Expr) string {
+	if _, ok := f.isNewCompressReader(e); ok {
+		return "reader"
+	}
+	switch x := f.resolve(e).(type) {
+	case *ast.SelectorExpr:
+		if x.Sel.Name == "responseBody" {
+			return "field:responseBody"
+		}
+	case *ast.CallExpr:
+		if fun := f.print(x.Fun); fun == "compress.NewGzipReader" || fun == "NewGzipReader" {
+			return "gzip"
+		}
+	case *ast.UnaryExpr:
+		if cl, ok := x.X.(*ast.CompositeLit); ok && x.Op == token.AND && f.print(cl.Type) == "gzipReader" {
+			return "gzip"
+		}
+	}
+	return "raw"
+}
+
+// effect classifies one statement of a decoding block; a call to an unexported helper of the
+// same package is replaced by the statements of its body (one level deep). ok=false: a
+// declaration of a local (already recorded as an alias), nothing to report.
+func (f *c14Fn) effects(l []ast.Stmt, depth int) []string {
+	var out []string
+	for _, st := range l {
+		switch s := st.(type) {
+		case *ast.ExprStmt:
+			call, ok := s.X.(*ast.CallExpr)
+			if !ok {
+				break
+			}
+			if sel, ok := call.Fun.(*ast.SelectorExpr); ok && sel.Sel.Name == "Del" && c14LastSel(sel.X) == "Header" && len(call.Args) == 1 {
+				if k, ok := f.str(call.Args[0]); ok {
+					out = append(out, "del:"+k)
+					continue
+				}
+			}
+			// helper of the same package, one level deep
+			name, recv := "", ""
+			switch fun := call.Fun.(type) {
+			case *ast.Ident:
+				name = fun.Name
+			case *ast.SelectorExpr:
+				name, recv = fun.Sel.Name, "*"
+			}
+			if depth == 0 && name != "" && !ast.IsExported(name) {
+				if h := f.helper(name, recv); h != nil {
+					out = append(out, h.effects(h.fd.Body.List, 1)...)
+					continue
+				}
+			}
+		case *ast.AssignStmt:
+			if s.Tok == token.DEFINE {
+				continue // an alias, followed by resolve
+			}
+			if len(s.Lhs) == 1 && len(s.Rhs) == 1 && s.Tok == token.ASSIGN {
+				switch fld := c14LastSel(s.Lhs[0]); fld {
+				case "ContentLength":
+					out = append(out, "ContentLength="+f.print(f.resolve(s.Rhs[0])))
+					continue
+				case "Uncompressed":
+					out = append(out, "Uncompressed="+f.print(f.resolve(s.Rhs[0])))
+					continue
+				case "Body", "responseBody":
+					out = append(out, "set:"+fld+":"+f.source(s.Rhs[0]))
+					continue
+				}
+			}
+		case *ast.DeclStmt:
+			continue
+		case *ast.ReturnStmt:
+			if depth > 0 && len(s.Results) == 0 {
+				continue
+			}
+		}
+		out = append(out, "other:"+f.print(st))
+	}
+	return out
+}
+
+// helper finds an unexported function (recv "") or method (recv "*": any receiver) of the package.
+func (f *c14Fn) helper(name, recv string) *c14Fn {
+	fs, err := f.c.files(f.dir)
+	if err != nil {
+		return nil
+	}
+	var hit *ast.FuncDecl
+	n := 0
+	for _, file := range fs {
+		for _, d := range file.Decls {
+			fd, ok := d.(*ast.FuncDecl)
+			if !ok || fd.Name.Name != name || fd.Body == nil || (recv == "") != (fd.Recv == nil) {
+				continue
+			}
+			hit = fd
+			n++
+		}
+	}
+	if n != 1 {
+		return nil
+	}
+	return &c14Fn{c: f.c, dir: f.dir, fd: hit, locals: map[string]ast.Expr{}}
+}
+
+type c14Clause struct {
+	cond ast.Expr
+	body []ast.Stmt
+}
+
+// chain reads an if/else-if chain or a tagless switch as ordered clauses + default.
+func (f *c14Fn) chain(st ast.Stmt) (cl []c14Clause, deflt []ast.Stmt, ok bool) {
 	switch s := st.(type) {
-	case *ast.ExprStmt:
-		if call, ok := s.X.(*ast.CallExpr); ok && len(call.Args) == 1 {
-			if sel, ok := call.Fun.(*ast.SelectorExpr); ok && sel.Sel.Name == "Del" && c14LastSel(sel.X) == "Header" {
-				if k, ok := c14Str(call.Args[0]); ok {
-					return "del:" + k, nil
+	case *ast.IfStmt:
+		for cur := s; ; {
+			cl = append(cl, c14Clause{cur.Cond, cur.Body.List})
+			switch e := cur.Else.(type) {
+			case nil:
+				return cl, nil, true
+			case *ast.BlockStmt:
+				return cl, e.List, true
+			case *ast.IfStmt:
+				cur = e
+			default:
+				return nil, nil, false
+			}
+		}
+	case *ast.SwitchStmt:
+		if s.Tag != nil && f.print(s.Tag) != "true" {
+			return nil, nil, false
+		}
+		for _, c := range s.Body.List {
+			cc := c.(*ast.CaseClause)
+			for _, b := range cc.Body {
+				if br, ok := b.(*ast.BranchStmt); ok && br.Tok == token.FALLTHROUGH {
+					return nil, nil, false
+				}
+			}
+			switch len(cc.List) {
+			case 0:
+				deflt = cc.Body
+			case 1:
+				if deflt != nil {
+					return nil, nil, false // a case after default: order no longer the chain's
+				}
+				cl = append(cl, c14Clause{cc.List[0], cc.Body})
+			default:
+				return nil, nil, false
+			}
+		}
+		return cl, deflt, true
+	}
+	return nil, nil, false
+}
+
+// gzipTest classifies `EqualFold(Get("Content-Encoding"), tok)` / `Get(…) == tok`.
+func (f *c14Fn) gzipTest(e ast.Expr) (test, tok string, ok bool) {
+	switch t := f.resolve(e).(type) {
+	case *ast.CallExpr:
+		if len(t.Args) == 2 && strings.HasSuffix(f.print(t.Fun), "EqualFold") {
+			for _, p := range [][2]ast.Expr{{t.Args[0], t.Args[1]}, {t.Args[1], t.Args[0]}} {
+				k, ok1 := f.headerGet(p[0])
+				tk, ok2 := f.str(p[1])
+				if ok1 && ok2 && k == "Content-Encoding" {
+					return f.print(t.Fun), tk, true
 				}
 			}
 		}
-	case *ast.AssignStmt:
-		if len(s.Lhs) == 1 && len(s.Rhs) == 1 && s.Tok == token.ASSIGN {
-			switch f := c14LastSel(s.Lhs[0]); f {
-			case "ContentLength":
-				return "ContentLength=" + c14Print(c, s.Rhs[0]), nil
-			case "Uncompressed":
-				return "Uncompressed=" + c14Print(c, s.Rhs[0]), nil
-			case "Body", "responseBody":
-				return "set:" + f + ":" + c14Source(c, s.Rhs[0], readerVar), nil
+	case *ast.BinaryExpr:
+		if t.Op == token.EQL {
+			for _, p := range [][2]ast.Expr{{t.X, t.Y}, {t.Y, t.X}} {
+				k, ok1 := f.headerGet(p[0])
+				tk, ok2 := f.str(p[1])
+				if ok1 && ok2 && k == "Content-Encoding" {
+					return "==", tk, true
+				}
 			}
 		}
 	}
-	return "", fmt.Errorf("unclassified statement `%s` in a decoding branch", c14Print(c, st))
-}
-
-// c14Source names where a body comes from, without local-variable names: "reader" = the result
-// of compress.NewCompressReader (called in place or bound by the guarding if), "local" = any
-// other local (the framing-level body).
-func c14Source(c *ctx, e ast.Expr, readerVar string) string {
-	switch x := e.(type) {
-	case *ast.Ident:
-		if readerVar != "" && x.Name == readerVar {
-			return "reader"
-		}
-		return "local"
-	case *ast.SelectorExpr:
-		return "field:" + x.Sel.Name
-	case *ast.CallExpr:
-		if c14Print(c, x.Fun) == "compress.NewCompressReader" {
-			return "reader"
-		}
-		return "call:" + c14Print(c, x.Fun)
-	case *ast.UnaryExpr:
-		if cl, ok := x.X.(*ast.CompositeLit); ok && x.Op == token.AND {
-			return "new:" + c14Print(c, cl.Type)
-		}
-	case *ast.CompositeLit:
-		return "lit:" + c14Print(c, x.Type)
-	}
-	return "expr:" + c14Print(c, e)
-}
-
-func c14Effects(c *ctx, l []ast.Stmt, readerVar string) ([]string, error) {
-	var out []string
-	for _, st := range l {
-		e, err := c14Effect(c, st, readerVar)
-		if err != nil {
-			return nil, err
-		}
-		out = append(out, e)
-	}
-	return out, nil
+	return "", "", false
 }
 
 func c14SiteFacts(c *ctx, dir, recv, fn string) (*c14Site, error) {
-	fd, err := c.funcDecl(dir, recv, fn)
+	f, err := c14NewFn(c, dir, recv, fn)
 	if err != nil {
 		return nil, err
 	}
 	where := recv + "." + fn
-	// the chain: if <flag> && <gzip test> {…} else if <auto…> {…} [else {…}]
 	type hit struct {
-		is    *ast.IfStmt
+		cl    []c14Clause
+		deflt []ast.Stmt
 		block *ast.BlockStmt
 		idx   int
 	}
 	var hits []hit
-	ast.Inspect(fd.Body, func(n ast.Node) bool {
+	ast.Inspect(f.fd.Body, func(n ast.Node) bool {
 		bl, ok := n.(*ast.BlockStmt)
 		if !ok {
 			return true
 		}
 		for i, st := range bl.List {
-			is, ok := st.(*ast.IfStmt)
-			if !ok || is.Init != nil {
+			cl, deflt, ok := f.chain(st)
+			if !ok || len(cl) == 0 {
 				continue
 			}
-			if strings.Contains(c14Print(c, is.Cond), `"gzip"`) {
-				hits = append(hits, hit{is, bl, i})
+			for _, e := range f.conjuncts(cl[0].cond) {
+				if _, _, ok := f.gzipTest(e); ok {
+					hits = append(hits, hit{cl, deflt, bl, i})
+					break
+				}
 			}
 		}
 		return true
 	})
 	if len(hits) != 1 {
-		return nil, fmt.Errorf("%s: %d if-statements testing \"gzip\"", where, len(hits))
+		return nil, errAbstain{fmt.Sprintf("%s: %d chains whose first condition tests Content-Encoding against a token", where, len(hits))}
 	}
 	h := hits[0]
-	s := &c14Site{}
-	cj := c14Conjuncts(h.is.Cond)
-	if len(cj) != 2 {
-		return nil, fmt.Errorf("%s: gzip condition `%s` is not `flag && test`", where, c14Print(c, h.is.Cond))
+	if len(h.cl) != 2 {
+		return nil, errAbstain{fmt.Sprintf("%s: decoding chain with %d conditional branches", where, len(h.cl))}
 	}
-	s.gzipFlag = c14LastSel(cj[0])
-	if s.gzipFlag == "" {
-		return nil, fmt.Errorf("%s: gzip flag `%s` is not a field", where, c14Print(c, cj[0]))
+	s := &c14Site{gzipFlag: "<missing>"}
+	// branch 1: flag && test (either order)
+	var rest []ast.Expr
+	for _, e := range f.conjuncts(h.cl[0].cond) {
+		if t, tok, ok := f.gzipTest(e); ok && s.gzipTest == "" {
+			s.gzipTest, s.gzipToken = t, tok
+		} else {
+			rest = append(rest, e)
+		}
 	}
-	switch t := cj[1].(type) {
-	case *ast.CallExpr:
-		if len(t.Args) == 2 && strings.HasSuffix(c14Print(c, t.Fun), "EqualFold") {
-			k, ok1 := c14HeaderGet(t.Args[0])
-			tok, ok2 := c14Str(t.Args[1])
-			if ok1 && ok2 && k == "Content-Encoding" {
-				s.gzipTest, s.gzipToken = c14Print(c, t.Fun), tok
+	if len(rest) == 1 {
+		s.gzipFlag = c14LastSel(f.resolve(rest[0]))
+		if s.gzipFlag == "" {
+			s.gzipFlag = "other:" + f.print(rest[0])
+		}
+	} else if len(rest) > 1 {
+		s.gzipFlag = "other:" + f.print(h.cl[0].cond)
+	}
+	s.gzipEffects = f.effects(h.cl[0].body, 0)
+	// branch 2: AutoDecompression [&& !isHead], possibly as nested ifs, then the guard
+	addAuto := func(cond ast.Expr) {
+		for _, e := range f.conjuncts(cond) {
+			switch {
+			case f.notHeadTest(e):
+				s.autoConds = append(s.autoConds, "notHead")
+			case c14LastSel(f.resolve(e)) == "AutoDecompression":
+				s.autoConds = append(s.autoConds, "auto")
+			default:
+				s.autoConds = append(s.autoConds, "other:"+f.print(e))
 			}
 		}
-	case *ast.BinaryExpr:
-		k, ok1 := c14HeaderGet(t.X)
-		tok, ok2 := c14Str(t.Y)
-		if ok1 && ok2 && k == "Content-Encoding" && t.Op == token.EQL {
-			s.gzipTest, s.gzipToken = "==", tok
+	}
+	guardOf := func(is *ast.IfStmt) string {
+		b, ok := f.resolve(is.Cond).(*ast.BinaryExpr)
+		if !ok || b.Op != token.NEQ {
+			return ""
 		}
-	}
-	if s.gzipTest == "" {
-		return nil, fmt.Errorf("%s: unclassified gzip test `%s`", where, c14Print(c, cj[1]))
-	}
-	if s.gzipEffects, err = c14Effects(c, h.is.Body.List, ""); err != nil {
-		return nil, fmt.Errorf("%s: %v", where, err)
-	}
-	ei, ok := h.is.Else.(*ast.IfStmt)
-	if !ok || ei.Init != nil {
-		return nil, fmt.Errorf("%s: the gzip branch has no `else if` (AutoDecompression) branch", where)
-	}
-	for _, e := range c14Conjuncts(ei.Cond) {
-		if u, ok := e.(*ast.UnaryExpr); ok && u.Op == token.NOT && c14LastSel(u.X) == "isHead" {
-			s.autoConds = append(s.autoConds, "notHead")
-		} else if c14LastSel(e) == "AutoDecompression" {
-			s.autoConds = append(s.autoConds, "auto")
-		} else {
-			return nil, fmt.Errorf("%s: unclassified conjunct `%s` in the AutoDecompression condition", where, c14Print(c, e))
-		}
-	}
-	// inside: either `if cr := compress.NewCompressReader(_, X.Header.Get("Content-Encoding")); cr != nil {…}`
-	// or `ce := X.Header.Get("Content-Encoding"); if ce != "" {…}`
-	var inner *ast.IfStmt
-	readerVar := ""
-	switch len(ei.Body.List) {
-	case 1:
-		inner, _ = ei.Body.List[0].(*ast.IfStmt)
-		if inner != nil && inner.Init != nil {
-			as, ok := inner.Init.(*ast.AssignStmt)
-			good := ok && len(as.Rhs) == 1 && len(as.Lhs) == 1
-			if good {
-				call, ok := as.Rhs[0].(*ast.CallExpr)
-				good = ok && c14Print(c, call.Fun) == "compress.NewCompressReader" && len(call.Args) == 2
-				if good {
-					k, ok := c14HeaderGet(call.Args[1])
-					good = ok && k == "Content-Encoding"
+		for _, p := range [][2]ast.Expr{{b.X, b.Y}, {b.Y, b.X}} {
+			if call, ok := f.isNewCompressReader(p[0]); ok && f.print(p[1]) == "nil" {
+				if k, ok := f.headerGet(call.Args[1]); ok && k == "Content-Encoding" {
+					return "reader-exists"
 				}
 			}
-			if good && c14Print(c, inner.Cond) == c14Print(c, as.Lhs[0])+" != nil" {
-				s.autoGuard = "reader-exists"
-				readerVar = c14Print(c, as.Lhs[0])
+			if k, ok := f.headerGet(p[0]); ok && k == "Content-Encoding" {
+				if v, ok := f.str(p[1]); ok && v == "" {
+					return "encoding-nonempty"
+				}
 			}
 		}
-	case 2:
-		as, ok := ei.Body.List[0].(*ast.AssignStmt)
-		inner, _ = ei.Body.List[1].(*ast.IfStmt)
-		if ok && inner != nil && inner.Init == nil && len(as.Lhs) == 1 && len(as.Rhs) == 1 {
-			if k, ok := c14HeaderGet(as.Rhs[0]); ok && k == "Content-Encoding" && c14Print(c, inner.Cond) == c14Print(c, as.Lhs[0])+` != ""` {
-				s.autoGuard = "encoding-nonempty"
+		return ""
+	}
+	addAuto(h.cl[1].cond)
+	body := h.cl[1].body
+	s.autoGuard = "none"
+	for {
+		var stmts []ast.Stmt // without alias definitions
+		for _, st := range body {
+			if as, ok := st.(*ast.AssignStmt); ok && as.Tok == token.DEFINE {
+				continue
 			}
+			if _, ok := st.(*ast.DeclStmt); ok {
+				continue
+			}
+			stmts = append(stmts, st)
 		}
-	}
-	if s.autoGuard == "" || inner == nil || inner.Else != nil {
-		return nil, fmt.Errorf("%s: unclassified body of the AutoDecompression branch", where)
-	}
-	if s.autoEffects, err = c14Effects(c, inner.Body.List, readerVar); err != nil {
-		return nil, fmt.Errorf("%s: %v", where, err)
-	}
-	switch e := ei.Else.(type) {
-	case nil:
-	case *ast.BlockStmt:
-		if s.elseEffects, err = c14Effects(c, e.List, ""); err != nil {
-			return nil, fmt.Errorf("%s: %v", where, err)
+		is, single := (*ast.IfStmt)(nil), false
+		if len(stmts) == 1 {
+			is, single = stmts[0].(*ast.IfStmt)
 		}
-	default:
-		return nil, fmt.Errorf("%s: a third `else if` in the decoding chain", where)
-	}
-	// body assignments immediately before / after the chain (HTTP/3 goes through s.responseBody)
-	if h.idx > 0 {
-		if e, err := c14Effect(c, h.block.List[h.idx-1], ""); err == nil && strings.HasPrefix(e, "set:") {
-			s.before = e
+		if !single || is.Else != nil {
+			s.autoEffects = f.effects(body, 0) // no guard at all: reported as guard "none"
+			break
 		}
+		if g := guardOf(is); g != "" {
+			s.autoGuard = g
+			s.autoEffects = f.effects(is.Body.List, 0)
+			break
+		}
+		addAuto(is.Cond) // `if auto { if !isHead { … } }`
+		body = is.Body.List
+	}
+	s.elseEffects = f.effects(h.deflt, 0)
+	// body assignments immediately before / after the chain (HTTP/3 goes through s.responseBody);
+	// alias definitions in between do not count
+	for i := h.idx - 1; i >= 0; i-- {
+		if as, ok := h.block.List[i].(*ast.AssignStmt); ok && as.Tok == token.DEFINE {
+			continue
+		}
+		if e := f.effects(h.block.List[i:i+1], 0); len(e) == 1 && strings.HasPrefix(e[0], "set:") {
+			s.before = e[0]
+		}
+		break
 	}
 	if h.idx+1 < len(h.block.List) {
-		if e, err := c14Effect(c, h.block.List[h.idx+1], ""); err == nil && strings.HasPrefix(e, "set:") {
-			s.after = e
+		if e := f.effects(h.block.List[h.idx+1:h.idx+2], 0); len(e) == 1 && strings.HasPrefix(e[0], "set:") {
+			s.after = e[0]
 		}
 	}
 	return s, nil
@@ -471,28 +768,28 @@ func c14LeanStrs(l []string) string {
 }
 
 func c14Facts(c *ctx) (string, error) {
-	arms, err := c14Arms(c)
-	if err != nil {
-		return "", err
-	}
 	var b strings.Builder
-	b.WriteString("/-! C14 facts: compress.NewCompressReader switch arms, decoder libraries, and the shape of the\nrequest-side and response-side compression logic of the three protocol stacks. -/\nnamespace Generated.C14Facts\n\n")
+	b.WriteString("/-! C14 facts: compress.NewCompressReader switch arms, decoder libraries, and the shape of the\nrequest-side and response-side compression logic of the three protocol stacks.\nA fact is `none` when the construct could not be located in the shape family the extractor reads\n(no claim is made then; the C14 lanes pin the behaviour). -/\nnamespace Generated.C14Facts\n\n")
 	b.WriteString("/-- `case <token>: return <constructor>(body)`; the function ends in `return nil`. -/\n")
-	b.WriteString("def arms : List (List UInt8 × String) := [\n")
-	for i, a := range arms {
-		sep := ","
-		if i == len(arms)-1 {
-			sep = ""
+	if arms, err := c14Arms(c); err != nil {
+		fmt.Fprintf(&b, "-- not located: %s\ndef arms : Option (List (List UInt8 × String)) := none\n\n", strings.ReplaceAll(err.Error(), "\n", " "))
+	} else {
+		b.WriteString("def arms : Option (List (List UInt8 × String)) := some [\n")
+		for i, a := range arms {
+			sep := ","
+			if i == len(arms)-1 {
+				sep = ""
+			}
+			fmt.Fprintf(&b, "  (%s, %s)%s\n", leanBytes(a[0]), strconv.Quote(a[1]), sep)
 		}
-		fmt.Fprintf(&b, "  (%s, %s)%s\n", leanBytes(a[0]), strconv.Quote(a[1]), sep)
+		b.WriteString("]\n\n")
 	}
-	b.WriteString("]\n\n")
-	b.WriteString("/-- reader type → import path of the `NewReader` its Read method calls -/\ndef libs : List (String × String) := [\n")
+	b.WriteString("/-- reader type → import path of the `NewReader` its Read method calls (\"\" = not located) -/\ndef libs : List (String × String) := [\n")
 	readers := []string{"GzipReader", "DeflateReader", "BrotliReader", "ZstdReader"}
 	for i, r := range readers {
 		lib, err := c14ReaderLib(c, r)
 		if err != nil {
-			return "", err
+			lib = ""
 		}
 		sep := ","
 		if i == len(readers)-1 {
@@ -507,19 +804,23 @@ func c14Facts(c *ctx) (string, error) {
 		{"h2", "internal/http2", "ClientConn", "roundTrip", "clientConnReadLoop", "handleResponse"},
 		{"h3", "internal/http3", "requestStream", "SendRequestHeader", "requestStream", "ReadResponse"},
 	}
-	b.WriteString("structure Site where\n  ask : List String\n  gzipFlag : String\n  gzipTest : String\n  gzipToken : List UInt8\n  gzipEffects : List String\n  autoConds : List String\n  autoGuard : String\n  autoEffects : List String\n  elseEffects : List String\n  before : String\n  after : String\n  deriving DecidableEq, Repr\n\n")
+	b.WriteString("structure Site where\n  gzipFlag : String\n  gzipTest : String\n  gzipToken : List UInt8\n  gzipEffects : List String\n  autoConds : List String\n  autoGuard : String\n  autoEffects : List String\n  elseEffects : List String\n  before : String\n  after : String\n  deriving DecidableEq, Repr\n\n")
 	for _, st := range sites {
-		ask, err := c14AskConds(c, st.dir, st.askRecv, st.askFn)
-		if err != nil {
-			return "", err
+		fmt.Fprintf(&b, "/-- %s %s.%s: conjuncts under which the transport asks for gzip -/\n", st.dir, st.askRecv, st.askFn)
+		if ask, err := c14AskConds(c, st.dir, st.askRecv, st.askFn); err != nil {
+			fmt.Fprintf(&b, "-- not located: %s\ndef %sAsk : Option (List String) := none\n\n", strings.ReplaceAll(err.Error(), "\n", " "), st.name)
+		} else {
+			fmt.Fprintf(&b, "def %sAsk : Option (List String) := some %s\n\n", st.name, c14LeanStrs(ask))
 		}
+		fmt.Fprintf(&b, "/-- %s %s.%s: the decoding chain -/\n", st.dir, st.respRecv, st.respFn)
 		s, err := c14SiteFacts(c, st.dir, st.respRecv, st.respFn)
 		if err != nil {
-			return "", err
+			fmt.Fprintf(&b, "-- not located: %s\ndef %s : Option Site := none\n\n", strings.ReplaceAll(err.Error(), "\n", " "), st.name)
+			continue
 		}
-		fmt.Fprintf(&b, "/-- %s: %s.%s (request) / %s.%s (response) -/\ndef %s : Site where\n", st.dir, st.askRecv, st.askFn, st.respRecv, st.respFn, st.name)
-		fmt.Fprintf(&b, "  ask := %s\n  gzipFlag := %s\n  gzipTest := %s\n  gzipToken := %s\n  gzipEffects := %s\n  autoConds := %s\n  autoGuard := %s\n  autoEffects := %s\n  elseEffects := %s\n  before := %s\n  after := %s\n\n",
-			c14LeanStrs(ask), strconv.Quote(s.gzipFlag), strconv.Quote(s.gzipTest), leanBytes(s.gzipToken), c14LeanStrs(s.gzipEffects),
+		fmt.Fprintf(&b, "def %s : Option Site := some {\n", st.name)
+		fmt.Fprintf(&b, "  gzipFlag := %s\n  gzipTest := %s\n  gzipToken := %s\n  gzipEffects := %s\n  autoConds := %s\n  autoGuard := %s\n  autoEffects := %s\n  elseEffects := %s\n  before := %s\n  after := %s }\n\n",
+			strconv.Quote(s.gzipFlag), strconv.Quote(s.gzipTest), leanBytes(s.gzipToken), c14LeanStrs(s.gzipEffects),
 			c14LeanStrs(s.autoConds), strconv.Quote(s.autoGuard), c14LeanStrs(s.autoEffects), c14LeanStrs(s.elseEffects),
 			strconv.Quote(s.before), strconv.Quote(s.after))
 	}
